@@ -410,11 +410,13 @@ def gen_scenario(seed, root, params):
         kind = rng.choice(['regenerate', 'backend', 'env', 'env-u',
                            'run', 'run-I', 'downgrade', 'reload'])
         later.append({'kind': kind, 'ambient': amb, 'labels': labels,
+                      'spell': rng.choice(['phys', 'link']),
                       'cwd': cwd, 'prog': prog,
                       'lazy': rng.random() < 0.3,
                       'relbuild': rng.random() < 0.5,
                       'version': rng.choice([10, 11, 12, 13, 14, 15, 16])})
     return {'seed': seed, 'backend': backend, 'project': proj.to_json(),
+            'via_link': rng.random() < 0.3,
             'env': env, 'model': model, 'tc_lines': tc_lines,
             'used': sorted(used), 'later': later}
 
@@ -454,6 +456,14 @@ def execute(scn, root, fresh_world=True):
     proj.materialise(w)
     sim = S.Sim(w, proj, cfg)
     sim.env = env
+    # the same world reached through a symbolic link: another spelling of
+    # every directory involved
+    link = root + '-lnk'
+    if os.path.lexists(link):
+        os.remove(link)
+    os.symlink(root, link)
+    wl = W.World(link, create=False)
+    use_link = bool(scn.get('via_link'))
 
     violations, trace, stats = [], [], {}
     feats0 = {'backend=' + backend} | {'tc.' + u for u in used}
@@ -462,6 +472,22 @@ def execute(scn, root, fresh_world=True):
     def vio(oracle, detail, feats=()):
         violations.append(Violation(PROP, oracle, detail,
                                     feats0 | set(feats), len(trace)))
+
+    def spelled(path, how):
+        if how == 'link' and use_link:
+            return path.replace(root, link, 1) if path.startswith(root) \
+                else path
+        return path
+
+    if use_link:
+        # every configure of this case (the original one and the fresh
+        # references) spells the directories through the link
+        def configure_via_link(fault=None, mode='fork'):
+            return R.run_bfg(w, [spelled(a, 'link') for a in
+                                 proj.configure_args(w)], env=env,
+                             cwd=wl.src, fault=fault, mode=mode)
+        sim.configure = configure_via_link
+        stats['configured_via_link'] = 1
 
     try:
         r = sim.configure()
@@ -497,6 +523,9 @@ def execute(scn, root, fresh_world=True):
                 break
             amb, labels = lt['ambient'], lt['labels']
             cwd, prog, kind = lt['cwd'], lt['prog'], lt['kind']
+            sp = lt.get('spell', 'phys')
+            cwd = spelled(cwd, sp)
+            bdir = spelled(w.build, sp)
             lf = {'later=' + kind} | {'ambient.' + l for l in labels}
             stats['later.' + kind] = stats.get('later.' + kind, 0) + 1
             if kind == 'regenerate':
@@ -504,8 +533,8 @@ def execute(scn, root, fresh_world=True):
                 if lazy:
                     w.append('build.bfg', '# touched {}\n'.format(i))
                 args = ['regenerate'] + (['--lazy'] if lazy else []) + \
-                    [os.path.relpath(w.build, cwd)
-                     if lt['relbuild'] else w.build]
+                    [os.path.relpath(bdir, cwd)
+                     if lt['relbuild'] else bdir]
                 r = sim.bfg(args, env=amb, cwd=cwd, prog=prog)
                 trace.append(['regenerate', lazy, r.status])
                 if not r.ok:
@@ -543,7 +572,7 @@ def execute(scn, root, fresh_world=True):
                 conf_files = sim.primary()
             elif kind in ('env', 'env-u'):
                 args = ['env'] + (['-u'] if kind == 'env-u' else []) + \
-                    [w.build]
+                    [bdir]
                 r = sim.bfg(args, env=amb, cwd=cwd, prog=prog)
                 trace.append([kind, r.status])
                 got = parse_env_output(r.output)
@@ -559,7 +588,7 @@ def execute(scn, root, fresh_world=True):
                             ' '.join(args[:-1]), bad[:6], r.status), lf)
             elif kind in ('run', 'run-I'):
                 args = ['run'] + (['-I'] if kind == 'run-I' else []) + \
-                    ['-B', w.build, '--', '/usr/bin/env', '-0']
+                    ['-B', bdir, '--', '/usr/bin/env', '-0']
                 r = sim.bfg(args, env=amb, cwd=cwd, prog=prog)
                 trace.append([kind, r.status])
                 got = parse_env0(r.output)
@@ -612,6 +641,10 @@ def execute(scn, root, fresh_world=True):
                                   argv_line, r.output,
                                   lf | {'v{}'.format(v)})
     finally:
+        try:
+            os.remove(link)
+        except OSError:
+            pass
         if not os.environ.get('BFGSIM_KEEP'):
             w.destroy()
     return {'proj': proj, 'cfg': cfg, 'violations': violations,
